@@ -64,6 +64,7 @@ void vf_exit(int code);
 #define fprintf(...) ((void) 0)
 #define fputs(s, f) ((void) 0)
 #define fflush(f) ((void) 0)
+#define free(p) ((void) 0)	/* the strings PRS leaves behind are static objects here */
 int vf_sprintf(char *buf);
 #define sprintf(buf, ...) vf_sprintf(buf)	/* the option strings main() formats for the io channel: a fixed "o=1" */
 #define getenv(n) ((char *) 0)	/* ASSUME: TEST_IO_*, E2FSPROGS_UNDO_DIR, MKE2FS_SKIP_CHECK_MSG are not in the environment */
@@ -91,6 +92,7 @@ static int create_quota_inodes(ext2_filsys fs);
 #undef fputs
 #undef fflush
 #undef sprintf
+#undef free
 #undef getenv
 
 #ifndef STOP_AT
@@ -122,6 +124,7 @@ static struct struct_io_manager vf_unix_mgr, vf_undo_mgr, vf_sparse_mgr;
 io_manager unix_io_manager = &vf_unix_mgr;
 io_manager undo_io_manager = &vf_undo_mgr;
 io_manager sparse_io_manager = &vf_sparse_mgr;
+static char vf_ext4[5] = "ext4";
 static char vf_dev[2] = "d", vf_u[2] = "u", vf_j[2] = "j", vf_b[2] = "b", vf_os[6] = "Linux", vf_lbl[2] = "l",
 	    vf_uuid_null[5] = "null", vf_uuid_time[5] = "time", vf_uuid_rand[7] = "random", vf_uuid_str[2] = "x";
 
@@ -229,8 +232,7 @@ static void PRS(int argc, char *argv[])
 	dev_size = IN.dev_size; offset = IN.offset;
 	device_name = vf_dev;
 	undo_file = (IN.have_undo & 1) ? (char *) vf_u : (char *) 0;
-	journal_device = 0;
-	if (IN.have_jdev & 1) { journal_device = malloc(2); journal_device[0] = 'j'; journal_device[1] = 0; }
+	journal_device = (IN.have_jdev & 1) ? (char *) vf_j : (char *) 0;
 	bad_blocks_filename = (IN.have_bbfile & 1) ? (char *) vf_b : (char *) 0;
 	/* BOUND: the string options -U/-o/-L/-M are absent or all present, per query (STRS); they only feed in-memory superblock fields */
 #ifdef STRS
@@ -242,9 +244,8 @@ static void PRS(int argc, char *argv[])
 	fs_uuid = 0; creator_os = 0; volume_label = 0; mount_dir = 0;
 #endif
 	src_root = (IN.have_src & 1) ? (const char *) vf_lbl : (const char *) 0;
-	fs_types = malloc(2 * sizeof(char *));
-	fs_types[0] = malloc(5); strcpy(fs_types[0], "ext4"); fs_types[1] = 0;
-	(void) types_store;
+	types_store[0] = vf_ext4; types_store[1] = 0;
+	fs_types = types_store;
 	/* BOUND: 4 KiB blocks, at most 1.5M blocks (3 discard steps of 2 GiB) */
 	fs_param.s_log_block_size = 2;
 	ASSUME(IN.blocks_count >= 64 && IN.blocks_count <= 1500000);
@@ -253,7 +254,7 @@ static void PRS(int argc, char *argv[])
 	fs_param.s_feature_incompat = IN.feature_incompat;
 	fs_param.s_feature_ro_compat = IN.feature_ro_compat;
 	fs_param.s_flags = IN.s_flags;
-	memcpy(fs_param.s_hash_seed, IN.hash_seed, 16);
+	/* BOUND: no -E hash_seed (fs_param.s_hash_seed stays zero; the seed only feeds an in-memory superblock field) */
 #if STOP_AT == 9
 	vf_finish(0, 0);
 #endif
@@ -266,8 +267,11 @@ errcode_t ext2fs_initialize(const char *name, int flags, struct ext2_super_block
 	(void) name;
 	vf_ninit++;
 	vf_init_flags = flags;
-	(void) manager; (void) param;
-	if (IN.init_rc)
+#if STOP_AT == 8
+	vf_finish(0, 0);
+#endif
+	(void) manager;
+	if (IN.init_rc & 1)
 		return (IN.init_rc & 1) ? EXT2_ET_NO_MEMORY : 0;
 	vf_dev_mgr.magic = EXT2_ET_MAGIC_IO_MANAGER;
 	vf_dev_mgr.write_blk = stub_write_blk; vf_dev_mgr.write_blk64 = stub_write_blk64; vf_dev_mgr.write_byte = stub_write_byte;
@@ -279,7 +283,15 @@ errcode_t ext2fs_initialize(const char *name, int flags, struct ext2_super_block
 	vf_io.manager = &vf_dev_mgr;
 	vf_io.block_size = 4096;
 	vf_io.flags = (IN.discard_zeroes & 1) ? CHANNEL_FLAGS_DISCARD_ZEROES : 0;
-	vf_sb = *param;
+	/* only the fields main() reads are carried over (a 1 KiB struct copy costs minutes in the solver) */
+	vf_sb.s_blocks_count = param->s_blocks_count;
+	vf_sb.s_log_block_size = param->s_log_block_size;
+	vf_sb.s_feature_compat = param->s_feature_compat;
+	vf_sb.s_feature_incompat = param->s_feature_incompat;
+	vf_sb.s_feature_ro_compat = param->s_feature_ro_compat;
+	vf_sb.s_flags = param->s_flags & ~EXT2_FLAGS_TEST_FILESYS;
+	vf_sb.s_errors = param->s_errors;
+	vf_sb.s_creator_os = param->s_creator_os;
 	vf_sb.s_magic = EXT2_SUPER_MAGIC;
 	vf_sb.s_first_data_block = 0;
 	vf_sb.s_blocks_per_group = 32768;
@@ -303,7 +315,7 @@ static void vf_finish(int code, int returned)
 		PROP(vf_nwriters == 0 && vf_niowrite == 0 && vf_niodiscard == 0 && vf_after_exit_point == 0,
 		     "mke2fs -n: the whole run wrote, discarded and flushed nothing");
 		PROP(!returned, "mke2fs -n: main() ends in exit(), it never runs to its end");
-		if (code == 0 && vf_ninit)
+		if (code == 0 && vf_ninit && !STOP_AT)
 			PROP(vf_nshow == 1, "mke2fs -n: a successful no-action run prints the statistics exactly once (also with -q) and exits 0");
 	} else if (returned)
 		PROP(vf_nclose == 1, "control: a run that reaches the end of main() closed (flushed) the handle exactly once");
@@ -395,20 +407,23 @@ int check_plausibility(const char *device, int flags, int *ret_is_dev) { (void) 
 errcode_t set_undo_io_backing_manager(io_manager manager) { (void) manager; return 0; }
 errcode_t set_undo_io_backup_file(char *file_name) { (void) file_name; return 0; }
 errcode_t profile_get_boolean(profile_t p, const char *n, const char *s, const char *ss, int def, int *ret)
-{ (void) p; (void) n; (void) s; (void) ss; (void) def; *ret = IN.old_bitmaps & 1; return 0; }
+{
+	(void) p; (void) n; (void) s; (void) ss; (void) def; *ret = IN.old_bitmaps & 1;
+#if STOP_AT == 7
+	vf_finish(0, 0);
+#endif
+	return 0;
+}
 errcode_t profile_get_string(profile_t p, const char *n, const char *s, const char *ss, const char *def, char **ret)
 {
+	static char none[5] = "none", md4[9] = "half_md4";
 	(void) p; (void) n; (void) ss;
-	/* ASSUME: mke2fs.conf sets [defaults] undo_dir = none (no implicit undo file) and no other string option: absent options yield a copy of the default */
+	/* ASSUME: mke2fs.conf sets [defaults] undo_dir = none (no implicit undo file) and no other string option: absent options yield the default (hash_alg: half_md4) */
 	*ret = 0;
-	if (s && s[0] == 'u' && s[1] == 'n') {	/* undo_dir */
-		*ret = malloc(5);
-		strcpy(*ret, "none");
-	} else if (def) {
-		size_t l = strlen(def);
-		*ret = malloc(l + 1);
-		memcpy(*ret, def, l + 1);
-	}
+	if (s && s[0] == 'u' && s[1] == 'n')	/* undo_dir */
+		*ret = none;
+	else if (def)
+		*ret = md4;
 	return 0;
 }
 errcode_t profile_get_integer(profile_t p, const char *n, const char *s, const char *ss, int def, int *ret)
@@ -421,10 +436,12 @@ void profile_release(profile_t p) { (void) p; }
 errcode_t remove_error_table(const struct error_table *et) { (void) et; return 0; }
 const struct error_table et_ext2_error_table, et_prof_error_table;
 const char *error_message(long code) { (void) code; return ""; }
-void uuid_clear(uuid_t uu) { memset(uu, 0, 16); }
-void uuid_generate(uuid_t out) { memset(out, 0x5a, 16); }
-void uuid_generate_time(uuid_t out) { memset(out, 0x3c, 16); }
-int uuid_parse(const char *in, uuid_t uu) { (void) in; memset(uu, 1, 16); return (IN.uuid_parse_rc & 1) ? EXT2_ET_NO_MEMORY : 0; }
+/* element-wise on purpose: a memset through the unsigned char view of s_hash_seed turns the whole superblock into a byte array for the solver */
+static void vf_fill16(unsigned char *p, unsigned char v) { int i; for (i = 0; i < 16; i++) p[i] = v; }
+void uuid_clear(uuid_t uu) { vf_fill16(uu, 0); }
+void uuid_generate(uuid_t out) { vf_fill16(out, 0x5a); }
+void uuid_generate_time(uuid_t out) { vf_fill16(out, 0x3c); }
+int uuid_parse(const char *in, uuid_t uu) { (void) in; vf_fill16(uu, 1); return (IN.uuid_parse_rc & 1) ? -1 : 0; }
 __u32 ext2fs_crc32c_le(__u32 crc, unsigned char const *p, size_t len) { (void) p; (void) len; return crc; }
 void ext2fs_init_csum_seed(ext2_filsys fs)
 {
@@ -433,7 +450,14 @@ void ext2fs_init_csum_seed(ext2_filsys fs)
 	vf_finish(0, 0);
 #endif
 }
-int e2p_string2hash(char *s) { (void) s; return IN.hash_alg; }
+int e2p_string2hash(char *s)
+{
+	(void) s;
+#if STOP_AT == 4
+	vf_finish(0, 0);
+#endif
+	return IN.hash_alg;
+}
 int e2p_string2os(char *s) { (void) s; return 0; }
 void ext2fs_numeric_progress_init(ext2_filsys fs, struct ext2fs_numeric_progress_struct *p, const char *label, __u64 max) { (void) fs; (void) p; (void) label; (void) max; }
 void ext2fs_numeric_progress_update(ext2_filsys fs, struct ext2fs_numeric_progress_struct *p, __u64 val) { (void) fs; (void) p; (void) val; }
